@@ -185,6 +185,9 @@ def to_z3(v, kind=None):
         return z3.StringVal(v)
     if z3.is_expr(v):
         return v
+    if isinstance(v, SObj) and kind in (None, "elem"):
+        # a heap record stored in a symbolic sequence: an opaque token of its identity
+        return z3.Const(f"obj!{v.uid}", Elem)
     try:
         import numpy as np
         if isinstance(v, np.integer):
